@@ -60,6 +60,17 @@ func genCase(engine, mode, tier string, r *Rng, id string, i int) []string {
 		return []string{genAgg(r, tier).Line(id, "AGG")}
 	case "rsm":
 		return []string{genRsm(r, tier).Line(id, "RSM")}
+	case "apl":
+		return []string{genApl(r, tier).Line(id, "APL")}
+	case "csv":
+		switch mode {
+		case "small":
+			return []string{genCsvSmall(i).Line(id, "CSV")}
+		case "rt":
+			return []string{genCsvRoundTrip(r).Line(id, "CSV")}
+		default:
+			return []string{genCsvImport(r).Line(id, "CSV")}
+		}
 	case "grp":
 		return []string{genGrp(r, tier).Line(id, "GRP")}
 	}
